@@ -153,11 +153,12 @@ class PhasePredictor(QTable):
 
         index, dt = self._get_index_and_dt(t0)
         rphase = self["rphase"][index]
-        polynomial = self["poly"][index].copy()
-        polynomial.domain -= dt
+        # Substitute x -> x + dt; shifting the domain by dt instead loses precision,
+        # as (1 - dt) - (-1 - dt) is no longer exactly 2 when the two straddle a binade.
+        polynomial = self["poly"][index](Polynomial([dt, 1.0]))
         a = int(polynomial(0) // 1)
 
-        return (polynomial - a).convert(), pb.Phase(rphase + a)
+        return polynomial - a, pb.Phase(rphase + a)
 
     def f0(self, times, n=0):
         """Predict rotation frequency or its derivatives for given times."""
